@@ -23,7 +23,7 @@ var setterPools = map[string][]string{
 	"pathname": {"", "/", "//", "///", "a", "/a", "a/b", "/a/b/", "/a//b", "\\a", "/a\\b", ".", "..", "/.", "/..", "/./", "/../", "/a/./b", "/a/../b", "/a/..", "/%2e", "/%2E%2e", "/.%2e/x", "//.", "//..", "/.//x", "/..//x", "//x", "?", "#", "/a?b", "/a#b", "?a", "#a",
 		"C|", "/C|", "/C|/x", "C:", "/c:/..", "/C|/../x", "C|/x", " ", "/ ", "a b", "/é", "/🌈", "%", "/%4", "/%zz", "/%41", "/%00", "'\"<>`{}|^", "\t/a", "/a\n", "\x00", "\x7f", "\xff", "/\xc3", "a:b", "/a:b", "@", "[x]", ";a=b"},
 	"search": {"", "?", "??", "a", "?a", "a=b", "?a=b&c=d", "a&b", "&", "=", "&&", "a=", "=b", "a==b", "+", "a+b", "%2B", "1%2B1", "%26", "%3D", "%", "%4", "%zz", "'", "\"", "<>", "`{}|^", " ", "  ", "a b", "#", "a#b", "?#", "/", "\\", "é", "🌈", "\x00", "\x7f", "\t", "a\nb", ";", "a[]=1", "%41", "%C3%A9", "%ff", "\xff", "a=b ", " a=b", "a=1&a=2&b=3", "b=1&a=2&a=1", "a&a&a", "%61=1&a=2"},
-	"hash":   {"", "#", "##", "a", "#a", "a#b", "#a#b", " ", "  ", "a b", "'", "\"", "<>", "`", "{}|^", "?", "/", "\\", "%", "%4", "%zz", "%41", "%00", "é", "🌈", "\x00", "\x7f", "\t", "a\nb", "\xff", "a ", " a"},
+	"hash":   {":~:text=a", "a:~:text=b", "#:~:", "###a", "%23%23", "", "#", "##", "a", "#a", "a#b", "#a#b", " ", "  ", "a b", "'", "\"", "<>", "`", "{}|^", "?", "/", "\\", "%", "%4", "%zz", "%41", "%00", "é", "🌈", "\x00", "\x7f", "\t", "a\nb", "\xff", "a ", " a"},
 }
 
 // SetterValue draws a value for the named setter: WPT values, the per-setter pool,
